@@ -88,10 +88,10 @@ theorem parseOptTplM_shifts (M : Nat) : Shifts (parseOptTplM M) := by
 /-- (proved on the copy `parseOptTplM`, see there) -/
 theorem parseOptTpl_shifts : Shifts parseOptTpl := parseOptTplM_shifts 65536
 
-theorem dataLen_shifts (specLen ty : Nat) : Shifts (fun r => dataLen r specLen ty) := by
+theorem dataLen_shifts (specLen : Nat) : Shifts (fun r => dataLen r specLen) := by
   intro k r
   simp only [dataLen]
-  by_cases hv : (ty = tString ∨ ty = tOctets) ∧ specLen = 65535
+  by_cases hv : specLen = 65535
   · rw [if_pos hv, if_pos hv, rU8_shift]
     cases h1 : r.rU8 with
     | none => rfl
@@ -117,9 +117,9 @@ theorem decFields_shifts (fs : List Spec) (acc : Record) : Shifts (fun r => decF
     | some q =>
       obtain ⟨fid, ty⟩ := q
       simp only
-      have hsh : dataLen (r.shift k) x.len ty = ((dataLen r x.len ty).1, (dataLen r x.len ty).2.shift k) :=
-        dataLen_shifts x.len ty k r
-      generalize dataLen r x.len ty = p at hsh ⊢
+      have hsh : dataLen (r.shift k) x.len = ((dataLen r x.len).1, (dataLen r x.len).2.shift k) :=
+        dataLen_shifts x.len k r
+      generalize dataLen r x.len = p at hsh ⊢
       obtain ⟨res, r1⟩ := p
       simp only at hsh
       rw [hsh]
